@@ -254,16 +254,16 @@ PROPS["C16"] = {
     "technique": "TLC model checking of Connect behaviours and skip dataflow in Network.tla (gradients checked against finite differences in the "
                  "model) + exact replay into connect()/predict()/backward",
     "level_text": "TLC enumerates every behaviour of up to MaxConnects Connect(a,b) calls (all pairs a<=b with equal element counts, incl. flat<->spatial, "
-                  "a=b, shared sources, chains, already-targeted layers) on four base networks, checks that an accepted connection is never lost "
+                  "a=b, shared sources, chains, already-targeted layers) on five base networks, checks that an accepted connection is never lost "
                   "and that with additive accumulation the specification's reverse walk equals finite differences of the network function; each "
                   "behaviour is replayed: accept/reject per call, predict under all five accumulations, and every parameter gradient (additive) "
                   "compared exactly",
-    "level_note": "four base networks of depth 3-4 (dense, conv, deconv, max-pool), at most 2 (3) connect calls, sparse identity-like integer weights (the run fails as vacuous unless the five accumulations give distinguishable outputs); a second "
+    "level_note": "five base networks of depth 3-4 (dense, conv, deconv, max-pool), at most 2 (3) connect calls, sparse identity-like integer weights (the run fails as vacuous unless the five accumulations give distinguishable outputs); a second "
                   "connection to an already-targeted layer must be rejected (keeping both is not representable in the code's data structure)",
     "rule": "one case = one Connect behaviour on a base network, evaluated per data seed under 5 accumulations; all distinct; non-trivial = at least one accepted connection",
-    "mc": [flow_mc("skip", ["{1, 2, 3, 4}", 2, 1, 1, "{1, 2}", "FALSE"], ["{1, 2, 3, 4}", 3, 1, 1, "{1, 2, 3}", "FALSE"]),
+    "mc": [flow_mc("skip", ["{1, 2, 3, 4, 5}", 2, 1, 1, "{1, 2}", "FALSE"], ["{1, 2, 3, 4, 5}", 3, 1, 1, "{1, 2, 3}", "FALSE"]),
            # the gradient theorem (finite differences in TLC) on the dense and the dense/conv network (quick) / all (thorough)
-           flow_mc("skip", ["{1, 4}", 2, 1, 1, "{1}", "TRUE"], ["{1, 2, 3, 4}", 2, 1, 1, "{1, 2}", "TRUE"])],
+           flow_mc("skip", ["{1, 4}", 2, 1, 1, "{1}", "TRUE"], ["{1, 2, 3, 4, 5}", 2, 1, 1, "{1, 2}", "TRUE"])],
     "assumptions": FLOW_ASSUME,
 }
 PROPS["C17"] = {
@@ -271,13 +271,13 @@ PROPS["C17"] = {
     "exhaustive": True,
     "technique": "TLC model checking of loop dataflow in Network.tla (overwrite == unrolled network as an invariant) + exact replay into "
                  "loopback()/predict() and against the real unrolled network",
-    "level_text": "TLC enumerates every loop range a<=b with matching shapes on four base networks (dense, spatial with a flattened last layer, "
+    "level_text": "TLC enumerates every loop range a<=b with matching shapes on five base networks (dense, spatial with a flattened last layer, "
                   "deconv->max-pool), every iteration count up to the bound, input skips on/off, and checks in the model that overwrite "
                   "accumulation equals the plain network with the range repeated k+1 times; each case is replayed under all five accumulations "
                   "with exact comparison, and the overwrite loop is compared bitwise with a real unrolled network holding the same weights",
     "level_note": "iterations <= 2 (3); sparse identity-like integer weights (vacuity guard: the accumulations must be distinguishable); multiply only for one iteration; mean over 3 tensors compared within 1e-5, everything else exactly",
     "rule": "one case = one (network, range, iterations, input skips) evaluated under 5 accumulations; all distinct; non-trivial = all",
-    "mc": [flow_mc("loop", ["{1, 2, 3, 4}", 1, 3, 1, "{1, 2}", "FALSE"], ["{1, 2, 3, 4}", 1, 4, 1, "{1, 2, 3}", "FALSE"])],
+    "mc": [flow_mc("loop", ["{1, 2, 3, 4, 5}", 1, 3, 1, "{1, 2}", "FALSE"], ["{1, 2, 3, 4, 5}", 1, 4, 1, "{1, 2, 3}", "FALSE"])],
     "assumptions": FLOW_ASSUME,
 }
 PROPS["C11"] = {
@@ -291,7 +291,7 @@ PROPS["C11"] = {
                   "prediction is compared with the real network",
     "level_note": "loops <= 3 (4); sparse identity-like integer weights; multiply for loops <= 2; overwrite with several sources means the last source (what the statement admits)",
     "rule": "one case = one (placement, loops, inskips, outskips, accumulation) per data seed; all distinct; non-trivial = all",
-    "mc": [flow_mc("fb", ["{1, 2, 3, 4, 5, 6, 7}", 1, 1, 3, "{1, 2}", "FALSE"], ["{1, 2, 3, 4, 5, 6, 7}", 1, 1, 4, "{1, 2, 3}", "FALSE"])],
+    "mc": [flow_mc("fb", ["{1, 2, 3, 4, 5, 6, 7, 8}", 1, 1, 3, "{1, 2}", "FALSE"], ["{1, 2, 3, 4, 5, 6, 7, 8}", 1, 1, 4, "{1, 2, 3}", "FALSE"])],
     "assumptions": FLOW_ASSUME,
 }
 
@@ -421,13 +421,25 @@ PROPS["C01"]["mc"].append(LAYER_TERMS)
 PROPS["C02"]["mc"].append(LAYER_TERMS)
 PROPS["C01"]["level_note"] += "; smooth and leaky activations composed with the layer structure are checked in term mode on a 9-entry configuration menu (symbolic forward from the same tap formulas, gradients by the symbolic differentiator, 1e-4)"
 
+# network-level term mode (SymNet.tla): smooth / leaky activations through whole networks incl. feedback blocks
+NET_TERMS = {"module": "MC_NetTerms",
+             "consts": {"quick": {"NetSel": "{1, 2, 3, 4, 5, 6, 7, 8}", "ActSel": "{1, 2}", "LoopSel": "{1, 2}"},
+                        "thorough": {"NetSel": "{1, 2, 3, 4, 5, 6, 7, 8}", "ActSel": "{1, 2, 3}", "LoopSel": "{1, 2, 3}"}},
+             "workers": 8, "stack": "1g", "coverage": False,
+             "require": {"netterm_rounds_checked": 40, "netterm_feedback_rounds_checked": 20}}
+PROPS["C01"]["mc"].append(NET_TERMS)
+PROPS["C02"]["mc"].append(NET_TERMS)
+PROPS["C11"]["mc"].append(NET_TERMS)
+PROPS["C01"]["level_note"] += "; whole networks with smooth / leaky activations (perceptrons, spatial stacks flattened into dense layers, feedback blocks of dense and spatial layers unrolled up to 3 times) are checked in term mode: forward program and chain-rule gradient program of SymNet.tla, each local derivative by the symbolic differentiator, the program itself cross-checked against central differences in double precision"
+PROPS["C11"]["level_note"] += "; blocks without skips with tanh / sigmoid / leaky layers in term mode (MC_NetTerms)"
+
 NET_TRACE = {"group": "net", "trace_module": "Trace_Net", "tlc_timeout": 1500}
 for _p in ("C02", "C08", "C16", "C17", "C01", "C11"):
     PROPS[_p].setdefault("record", []).append(NET_TRACE)
     PROPS[_p]["technique"] += " + TLC validation of recorded builder/forward/backward sessions of random larger networks (Trace_Net)"
 
 # C01, "feedback blocks without internal skips": gradients of the unrolled network (theorem checked by TLC), one and two blocks
-FB_GRAD = flow_mc("fb", ["{1, 2, 5, 6, 7}", 1, 1, 2, "{1, 2}", "TRUE"], ["{1, 2, 3, 4, 5, 6, 7}", 1, 1, 3, "{1, 2, 3}", "TRUE"])
+FB_GRAD = flow_mc("fb", ["{1, 2, 5, 6, 7, 8}", 1, 1, 2, "{1, 2}", "TRUE"], ["{1, 2, 3, 4, 5, 6, 7, 8}", 1, 1, 3, "{1, 2, 3}", "TRUE"])
 FB_GRAD["require"] = {"feedback_gradient_cases": 20}
 PROPS["C01"]["mc"].append(FB_GRAD)
 
